@@ -32,6 +32,7 @@ def pendingFor (n : Notifier) (c x : Nat) : Bool :=
       (match k with
        | .all | .abort => n.pc == .fence || n.pc == .test || n.pc == .lock || n.pc == .epoch || n.pc == .flush
        | .ctx _ => n.pc == .fence || n.pc == .test || n.pc == .lock || n.pc == .epoch || n.pc == .scan || n.pc == .mark
+       | .onec _ => n.pc == .fence || n.pc == .test || n.pc == .lock || n.pc == .epoch || n.pc == .scan
        | .one => false)
   | _ => false
 
@@ -73,6 +74,15 @@ def Compat (s : St) : Prop :=
   ∀ (i : Nat) (sl : Sleeper), s.slp[i]? = some sl → ∀ w ∈ sl.ops, ∀ (j : Nat) (n : Notifier), s.ntf[j]? = some n →
     ∀ c k r, NOp.sig (some c) k r ∈ n.ops → c = w.cond → k.accepts w.ctx = true
 
+/-- a `notify_one(pred = (context == c0))` that announces the change of condition `cd`: if some thread waits on `cd`
+with context `c0`, no other thread ever waits with context `c0` (one waiter per contended address: the shape of
+`tbb::mutex` with one blocked thread per mutex, any number of mutexes sharing the `address_waiter` bucket) — so the
+single node the scan dequeues is every waiter it has to wake -/
+def Uniq (s : St) : Prop :=
+  ∀ (j : Nat) (n : Notifier), s.ntf[j]? = some n → ∀ cd c0 r, NOp.sig (some cd) (.onec c0) r ∈ n.ops →
+    ∀ (i i' : Nat) (sl sl' : Sleeper), s.slp[i]? = some sl → s.slp[i']? = some sl' →
+      ∀ w ∈ sl.ops, ∀ w' ∈ sl'.ops, w.cond = cd → w.ctx = c0 → w'.ctx = c0 → i = i'
+
 structure Inv (s : St) : Prop where
   cnt : s.count = s.waitset.length
   nodup : s.waitset.Nodup
@@ -84,6 +94,8 @@ structure Inv (s : St) : Prop where
   dek : ∀ (i : Nat) (sl : Sleeper), s.slp[i]? = some sl → (sl.pc = .commit ∨ sl.pc = .park) → s.cond sl.cond = true →
           i ∉ s.waitset ∨ ∃ (j : Nat) (n : Notifier), s.ntf[j]? = some n ∧ pendingFor n sl.cond sl.ctx = true
   compat : Compat s
+  uniq : Uniq s
+  wsv : ∀ x ∈ s.waitset, ∃ sl, s.slp[x]? = some sl
 
 /-! ### list helpers -/
 
